@@ -558,6 +558,60 @@ func RunC14(seed int64, tier, out string, start int, res *hx.Result) int {
 		iters = 30
 	}
 	nat := perunioser.Serializer()
+	check := func(e *wire.Envelope, class string, full bool) {
+		term := cv.Envelope(e)
+		oe, fr, _ := encodeTree(e)
+		var nbuf bytes.Buffer
+		nerr := nat.Encode(&nbuf, e)
+		if oe.kind != "ok" || nerr != nil {
+			idx := r.addCase(hx.App("PFrom", hx.App("VEnv", term), oe.obs("TEnv")), "proto/agree/"+class)
+			res.Count("proto/agree/"+class, "encode-"+oe.kind, "pagree/"+class+"/"+oe.kind, false)
+			r.fail("protobuf.Serializer.Encode", class, fmt.Sprintf("encoding a well-formed envelope failed: %s %v / native %v", oe.kind, oe.perr, nerr), idx, term)
+			return
+		}
+		var idx int
+		if full {
+			idx = r.addCase(hx.App("PAgree", term, oe.term, hx.Hex(fr), hx.Hex(nbuf.Bytes())), "proto/agree/"+class)
+		} else { // the tree only (less case text); decode and agreement are judged by the oracle below
+			idx = r.addCase(hx.App("PFrom", hx.App("VEnv", term), hx.App("POk", hx.App("TEnv", oe.term))), "proto/agree/"+class)
+		}
+		res.Sample(map[string]interface{}{"serializer": "protobuf", "message": class, "frame_bytes": len(fr), "native_bytes": nbuf.Len()})
+		// oracle: exact consumption, equal value, agreement
+		extra := make([]byte, 1+r.g.R.Intn(3))
+		r.g.R.Read(extra)
+		rd := bytes.NewReader(append(append([]byte{}, fr...), extra...))
+		od := guard(func() (string, interface{}, error) {
+			d, err := ser.Decode(rd)
+			if err != nil {
+				return "", nil, err
+			}
+			return cv.Envelope(d), d, nil
+		})
+		on := guard(func() (string, interface{}, error) {
+			d, err := nat.Decode(bytes.NewReader(nbuf.Bytes()))
+			if err != nil {
+				return "", nil, err
+			}
+			return cv.Envelope(d), d, nil
+		})
+		res.Count("proto/agree/"+class, od.kind, fmt.Sprintf("pagree/%s/%s/%d", class, od.kind, len(fr)/256), false)
+		if od.kind != "ok" || od.term != term {
+			// the PAgree case checks the model against e; what Go decoded instead is compared here
+			r.addCase(hx.App("PTo", hx.App("TEnv", oe.term), od.obs("VEnv")), "proto/agree/"+class+"/decoded")
+		}
+		switch {
+		case int(fr[0])<<8|int(fr[1]) != len(fr)-2:
+			r.fail("protobuf.writeEnvelope", class, "length prefix differs from the payload length", idx, term)
+		case od.kind != "ok":
+			r.fail("protobuf.Serializer.Decode", class, fmt.Sprintf("decoding the encoding of a well-formed envelope: %s %v", od.kind, od.perr), idx, term)
+		case od.term != term:
+			r.fail("protobuf.Serializer.Decode", class, "decode(encode e) differs from e", idx, map[string]string{"e": term, "decoded": od.term})
+		case rd.Len() != len(extra):
+			r.fail("protobuf.Serializer.Decode", class, fmt.Sprintf("decoder left %d bytes unread, %d follow the frame", rd.Len(), len(extra)), idx, term)
+		case on.kind != "ok" || on.term != od.term:
+			r.fail("protobuf.Serializer.Decode", class, "protobuf and native serializer decode to different messages", idx, map[string]string{"protobuf": od.term, "native": on.term})
+		}
+	}
 	for it := 0; it < iters; it++ {
 		// value kinds through the exported From*/To* functions
 		for ki := range kinds {
@@ -591,54 +645,10 @@ func RunC14(seed int64, tier, out string, start int, res *hx.Result) int {
 		// all 17 message types through the serializer and real bytes; agreement with the native serializer
 		for t := wire.Type(0); t < wire.LastType; t++ {
 			e := pwfEnvelope(r.g, t)
-			term := cv.Envelope(e)
-			class := msgClass(e)
-			oe, fr, _ := encodeTree(e)
-			var nbuf bytes.Buffer
-			nerr := nat.Encode(&nbuf, e)
-			if oe.kind != "ok" || nerr != nil {
-				idx := r.addCase(hx.App("PFrom", hx.App("VEnv", term), oe.obs("TEnv")), "proto/agree/"+class)
-				res.Count("proto/agree/"+class, "encode-"+oe.kind, "pagree/"+class+"/"+oe.kind, false)
-				r.fail("protobuf.Serializer.Encode", class, fmt.Sprintf("encoding a well-formed envelope failed: %s %v / native %v", oe.kind, oe.perr, nerr), idx, term)
-				continue
-			}
-			idx := r.addCase(hx.App("PAgree", term, oe.term, hx.Hex(fr), hx.Hex(nbuf.Bytes())), "proto/agree/"+class)
-			res.Sample(map[string]interface{}{"serializer": "protobuf", "message": class, "frame_bytes": len(fr), "native_bytes": nbuf.Len()})
-			// oracle: exact consumption, equal value, agreement
-			extra := make([]byte, 1+r.g.R.Intn(3))
-			r.g.R.Read(extra)
-			rd := bytes.NewReader(append(append([]byte{}, fr...), extra...))
-			od := guard(func() (string, interface{}, error) {
-				d, err := ser.Decode(rd)
-				if err != nil {
-					return "", nil, err
-				}
-				return cv.Envelope(d), d, nil
-			})
-			on := guard(func() (string, interface{}, error) {
-				d, err := nat.Decode(bytes.NewReader(nbuf.Bytes()))
-				if err != nil {
-					return "", nil, err
-				}
-				return cv.Envelope(d), d, nil
-			})
-			res.Count("proto/agree/"+class, od.kind, fmt.Sprintf("pagree/%s/%s/%d", class, od.kind, len(fr)/256), false)
-			if od.kind != "ok" || od.term != term {
-				// the PAgree case checks the model against e; what Go decoded instead is compared here
-				r.addCase(hx.App("PTo", hx.App("TEnv", oe.term), od.obs("VEnv")), "proto/agree/"+class+"/decoded")
-			}
-			switch {
-			case int(fr[0])<<8|int(fr[1]) != len(fr)-2:
-				r.fail("protobuf.writeEnvelope", class, "length prefix differs from the payload length", idx, term)
-			case od.kind != "ok":
-				r.fail("protobuf.Serializer.Decode", class, fmt.Sprintf("decoding the encoding of a well-formed envelope: %s %v", od.kind, od.perr), idx, term)
-			case od.term != term:
-				r.fail("protobuf.Serializer.Decode", class, "decode(encode e) differs from e", idx, map[string]string{"e": term, "decoded": od.term})
-			case rd.Len() != len(extra):
-				r.fail("protobuf.Serializer.Decode", class, fmt.Sprintf("decoder left %d bytes unread, %d follow the frame", rd.Len(), len(extra)), idx, term)
-			case on.kind != "ok" || on.term != od.term:
-				r.fail("protobuf.Serializer.Decode", class, "protobuf and native serializer decode to different messages", idx, map[string]string{"protobuf": od.term, "native": on.term})
-			}
+			check(e, msgClass(e), true)
+		}
+		if it%5 == 0 {
+			r.wfPatterns(check)
 		}
 		// what the protobuf serializer cannot carry (documented envelope of the format): not UTF-8, no state
 		bad := &wire.Envelope{Sender: r.g.RAddr(), Recipient: r.g.RAddr(), Msg: &client.ChannelSyncMsg{Phase: channel.Phase(r.g.R.Intn(12))}}
